@@ -66,6 +66,9 @@ ASSUMPTIONS = ['the analytic renderer below (pixel-centre sampling of I(r_ell)) 
                'area-integrated isophotes per ellipticity / integrmode / centre class, with a x5 margin on the centre of '
                'pixel-centred galaxies (no seed-dependent real enters their geometry; the calibration set is the '
                'enumerated set)',
+               'every EllipseGeometry of the lattice keeps the default astep = 0.1 (annulus 0.1 sma wide; 0.1 px with linear '
+               'growth, so linear-growth fits never reach the sector scan of the area integrators); geometries built with '
+               'their own astep / linear_growth are not enumerated',
                'at eps 0.8 fewer than half of the sectors of any isophote up to sma 50 hold > 6 pixels: no isophote of '
                'the lattice is classified area-integrated there (they are judged in the general area class)']
 
@@ -98,7 +101,6 @@ RANGE_EDGE = ['9.5-30', '5-10.5']    # minsma within one step below sma0; maxsma
 RANGE_LARGE = '25-50'                # frame 'large' (sma0 = 30): sma 27.3, 30, 33, 36.3, 39.9, 43.9, 48.3 with step 0.1
 SIZE = [1.0, 1.5, 2.5]               # multiplies the scale length of the radial law
 AREA_MODE = ['mean', 'median']
-AREA_GROWTH = ['geom0.1', 'lin3.0']  # linear growth needs an annulus >= 3 px wide for sectors of > 6 pixels (lin1.0: ~1 px)
 AREA_EPS = [0.2, 0.5, 0.05]          # eps 0.8: fewer than half of the sectors hold > 6 pixels up to sma 50 (sector_fraction)
 FIXVIA = ['kwargs', 'geometry']      # fix_* given to fit_image(), or to the EllipseGeometry constructor
 
@@ -116,8 +118,8 @@ BLOCKS = {
         ('range-edge', {'eps': [0.2, 0.8], 'growth': GROWTH, 'range': RANGE_EDGE}, {}),
         ('law', {'eps': [0.2, 0.8], 'pa_deg': [60, 150], 'law': LAW, 'cen': CEN}, {'range': 'default'}),
         # isophotes that really use the area integrators: 6 per fit (sma 30 ... 48.3) at eps 0.2, 4 at eps 0.5
-        ('area', {'eps': [0.2, 0.5], 'pa_deg': [30, 120], 'cen': ['int', 'frac'], 'mode': AREA_MODE, 'growth': AREA_GROWTH,
-                  'size': [1.0, 2.5]}, {'frame': 'large', 'range': RANGE_LARGE}),
+        ('area', {'eps': [0.2, 0.5], 'pa_deg': [30, 120], 'cen': ['int', 'frac'], 'mode': AREA_MODE, 'size': [1.0, 2.5]},
+         {'frame': 'large', 'range': RANGE_LARGE}),
     ],
     'thorough': [
         ('geometry', {'eps': EPS, 'pa_deg': PA_DEG, 'cen': CEN, 'law': LAW, 'init': ['truth', 'shape', 'centre']},
@@ -129,8 +131,8 @@ BLOCKS = {
         ('size', {'eps': EPS, 'pa_deg': PA_DEG, 'law': LAW, 'size': [1.5]}, {'range': 'default'}),
         ('range-edge', {'eps': [0.2, 0.8], 'growth': GROWTH, 'range': RANGE_EDGE}, {}),
         ('law', {'eps': [0.2, 0.8], 'pa_deg': [60, 150], 'law': LAW, 'cen': CEN}, {'range': 'default'}),
-        ('area', {'eps': AREA_EPS, 'pa_deg': PA_DEG, 'cen': ['int', 'frac'], 'mode': AREA_MODE, 'growth': AREA_GROWTH,
-                  'size': [1.0, 2.5], 'init': ['shape', 'centre']}, {'frame': 'large', 'range': RANGE_LARGE}),
+        ('area', {'eps': AREA_EPS, 'pa_deg': PA_DEG, 'cen': ['int', 'frac'], 'mode': AREA_MODE, 'size': [1.0, 2.5],
+                  'init': ['shape', 'centre']}, {'frame': 'large', 'range': RANGE_LARGE}),
     ],
 }
 
@@ -233,6 +235,17 @@ def fit_kwargs(case):
     return kw
 
 
+GEOMETRY_ASTEP = 0.1      # EllipseGeometry default; every geometry of the lattice is built without ``astep``
+
+
+def annulus_width(sma, case):
+    """Width of the integration annulus on the major axis.  fit_image(step=, linear=) only sets how sma grows; the
+    annulus sampled at each sma is the EllipseGeometry's own ``astep`` (relative; in pixels with linear growth), which
+    the lattice leaves at its default: 0.1 sma for geometric growth (= step 0.1) and 0.1 px for linear growth -- so
+    the linear-growth fits of the lattice never reach the area integrators' sector scan."""
+    return GEOMETRY_ASTEP if fit_kwargs(case)['linear'] else sma * GEOMETRY_ASTEP
+
+
 def fix_flags(case):
     f = case['fix']
     return {'fix_center': 'centre' in f, 'fix_pa': 'pa' in f, 'fix_eps': f == 'eps'}
@@ -331,7 +344,8 @@ def well_sampled(sma, case, t):
 # which isophotes really use the area integrators (evaluated on the INPUT geometry only)
 # --------------------------------------------------------------------------
 # Documented / visible rule of the integrators: integrmode 'mean' / 'median' samples an isophote in elliptical sectors
-# of the annulus sma (1 -+ step/2) (linear growth: sma -+ step/2); a sector whose pixel count is <= 6 is replaced by
+# of the annulus sma (1 -+ astep/2) (linear growth: sma -+ astep/2; astep is the EllipseGeometry's, see
+# annulus_width); a sector whose pixel count is <= 6 is replaced by
 # the bilinear sample at its centre (and the whole isophote when the first sector's area is < 1).  The sector at polar
 # angle phi has radial extent dr = w rho(phi) (w = annulus width on the major axis, rho = r(phi) / sma) and angular
 # width clip(w min(w, 3) / (dr r), 0.05, 0.2), hence area ~ w min(w, 3) pixels where the clip is inactive (all around
@@ -345,8 +359,7 @@ AREA_FRACTION_MIN = 0.5
 
 
 def sector_fraction(sma, eps, case, thr=SECTOR_PIX):
-    kw = fit_kwargs(case)
-    w = kw['step'] if kw['linear'] else sma * kw['step']
+    w = annulus_width(sma, case)
     q = 1.0 - eps
     phi = (np.arange(3600) + 0.5) * (2 * math.pi / 3600)
     rho = q / np.sqrt((q * np.cos(phi)) ** 2 + np.sin(phi) ** 2)
@@ -480,7 +493,8 @@ CAL_AI = {
 # galaxy centred on a pixel centre no seed-dependent real enters the geometry (the seed only scales the amplitude,
 # which the fit is invariant to up to rounding; verified: seeds 0, 1, 2 silent), and the calibration set IS the
 # enumerated set of both tiers.  The pixel grid is then point-symmetric about the centre, so the scatter of opposite
-# sectors cancels in the first harmonics and the centre deviation of the mean integrator stays <= 0.039 px; 5 x that
+# sectors cancels in the first harmonics and the centre deviation of the mean integrator stays <= 0.039 px (median:
+# <= 0.14 px, its limit stays wide); 5 x that
 # (0.18 / 0.20 px at eps 0.2 / 0.5) still exceeds every clean-tree value by a factor 5 and the largest 3 x reported
 # error seen, while a centre bias of a quarter pixel -- less than the loss of one pixel row or column of a sector
 # produces -- is outside it.  (With the uniform 10 x the limit would be 0.35 ... 0.39 px.)
